@@ -49,7 +49,7 @@ def spec_find(m, x, edges):
     return None
 
 
-def r_find_add(ctx, db, est, ln, consts=None, strict=True):
+def r_find_add(ctx, db, est, ln, consts=None, strict=True, bsearch="documented"):
     """find/add: never panic; succeed exactly on [range_min, range_max); select the unique
     half-open bin; add increments only that count by one and nothing on the error path"""
     for which in ("find", "add"):
@@ -70,9 +70,9 @@ def r_find_add(ctx, db, est, ln, consts=None, strict=True):
                 fs = {n: v for n, v in zip(cell.v.names, cell.v.fields)}
                 return r, want, list(fs[bn].elems), init_bins, list(fs[rng].elems), edges
             return thunk, {"self": (cell, deep(cell.v))}
-        paths, stats = explore(db, setup, Config(release=True, finite=False, consts=consts or {}), 20000)
+        paths, stats = explore(db, setup, Config(release=True, finite=False, consts=consts or {}, bsearch_contract=bsearch), 20000)
         ctx.count_run(Run(fp, paths, stats, which))
-        tag = "LEN=%d" % ln
+        tag = "LEN=%d" % ln + ("" if strict else ":repeated-edges(core's binary search)")
         for p in paths:
             pcs = pc_show(p.pc) or "unconditional"
             if p.status == "return":
